@@ -18,6 +18,7 @@ import (
 	"github.com/elnosh/gonuts/cashu/nuts/nut05"
 	"github.com/elnosh/gonuts/cashu/nuts/nut20"
 	"github.com/elnosh/gonuts/mint/storage"
+	decodepay "github.com/nbd-wtf/ln-decodepay"
 
 	"verif/harness/lnmodel"
 )
@@ -990,4 +991,16 @@ func (w *World) lqHash(id string) string {
 		return q.Hash
 	}
 	return "-"
+}
+
+// SetScript appends scripted backend answers for a payment hash.
+func (w *World) SetScript(hash string, pay, status []string) { w.setScript(hash, pay, status) }
+
+// PaymentHashOf decodes a bolt11 request.
+func PaymentHashOf(request string) (string, error) {
+	b, err := decodepay.Decodepay(request)
+	if err != nil {
+		return "", err
+	}
+	return b.PaymentHash, nil
 }
